@@ -8,11 +8,15 @@ pub mod c03;
 pub mod c04;
 pub mod c05;
 pub mod c07;
+pub mod c08;
+pub mod c09;
 pub mod c10;
 pub mod c11;
 pub mod c13;
+pub mod c16;
 pub mod c17;
 pub mod c20;
+pub mod numcommon;
 
 pub trait Prop {
     fn id(&self) -> &'static str;
@@ -60,9 +64,12 @@ pub fn all() -> Vec<Box<dyn Prop>> {
         Box::new(c04::C04),
         Box::new(c05::C05),
         Box::new(c07::C07),
+        Box::new(c08::C08),
+        Box::new(c09::C09),
         Box::new(c10::C10),
         Box::new(c11::C11),
         Box::new(c13::C13),
+        Box::new(c16::C16),
         Box::new(c17::C17),
         Box::new(c20::C20),
     ]
